@@ -37,6 +37,14 @@ def _violations(case, obs):
     for sid, lst, _ in obs["scheds"]:
         for i in lst:
             par.setdefault(i, sid)
+    # doers named in an extend belong to its target even when the extend failed half way
+    for d in case["defs"].values():
+        if d["kind"] != "nest":
+            for st in d["script"]:
+                for e in st["es"]:
+                    if e[0] == "ext":
+                        for i in e[2]:
+                            par.setdefault(i, e[1])
     last_enter = {}
     cease_pos = {}
     exit_pos = {}
